@@ -26,7 +26,7 @@ Import ListNotations."""
 
 SEL, OTH, MIS = gen.SEL, gen.OTH, gen.MIS
 ROLE_DK = {"cat": "DCat", "mr_items": "DMrSubvar", "mr_sel": "DMrCat",
-           "ca_items": "DCaSubvar", "ca_cats": "DCat"}
+           "ca_items": "DCaSubvar", "ca_cats": "DCat", "numarr": "DNumArr"}
 
 
 # ------------------------------------------------------------------------------------
@@ -35,7 +35,7 @@ ROLE_DK = {"cat": "DCat", "mr_items": "DMrSubvar", "mr_sel": "DMrCat",
 
 def var_to_json(v):
     d = {"kind": v.kind, "alias": v.alias, "name": v.name}
-    for key in ("cats", "items", "elements"):
+    for key in ("cats", "items", "elements", "mr_cats"):
         if hasattr(v, key):
             d[key] = copy.deepcopy(getattr(v, key))
     if getattr(v, "view_insertions", None) is not None:
